@@ -201,6 +201,20 @@ def _class_ds(case):
                 return np.array(self.classes)
             return list(self.classes)
 
+    if fmt == "none":
+        # no bulk accessor: the samplers have to load the labels sample-wise (slow path of utils/getall_as_tensor.py)
+        del DS.getall_class
+    if case.get("view"):
+        # history: the labels of the ROOT dataset were loaded before (a sampler on the full dataset), then the sampler under test
+        # is built on a view (SubsetWrapper) of the same root object; the view's class list is the case's class list
+        from kappadata.wrappers import SubsetWrapper
+        from kappadata.utils.getall_as_tensor import getall_as_tensor
+        classes = list(case["classes"])
+        n_cls = case.get("n_classes") or (max(classes) + 1 if classes else 1)
+        extra = [(k * 2 + 1) % n_cls for k in range(len(classes) + 2)]
+        root = DS(classes=extra + classes[::-1], n_classes=n_cls)
+        getall_as_tensor(root, item="class")
+        return SubsetWrapper(root, indices=[len(extra) + len(classes) - 1 - i for i in range(len(classes))])
     return DS(classes=list(case["classes"]), n_classes=case.get("n_classes"))
 
 
@@ -657,7 +671,8 @@ def gen_case(rng, kind, big=False):
         C = rng.choice([2, 2, 3, 3, 4])
         n = rng.randint(C, N)
         c = {"kind": "cb", "classes": gen_layout(rng, C, n), "n_classes": None, "shuffle": rng.random() < 0.75,
-             "spc": rng.choice([None, None, 1, 2, 3, 4, 5, 6, 7] + ([9, 12, 17] if big else [])), "seed": seed, "W": W, "fmt": rng.choice(["list", "list", "tensor", "numpy"])}
+             "spc": rng.choice([None, None, 1, 2, 3, 4, 5, 6, 7] + ([9, 12, 17] if big else [])), "seed": seed, "W": W, "fmt": rng.choice(["list", "list", "tensor", "numpy", "none"]),
+             "view": rng.random() < 0.3}
         if odd:
             z = rng.choice(["one-class", "gap", "spc0", "W0", "rank"])
             if z == "one-class":
@@ -696,7 +711,8 @@ def gen_case(rng, kind, big=False):
         cl = [-1] * nu + [rng.randrange(C) for _ in range(n - nu)]
         rng.shuffle(cl)
         c = {"kind": "semi", "classes": cl, "L": rng.randint(1, 3), "U": rng.randint(1, 3), "seed": seed, "W": W,
-             "mode": rng.choice(["labeled", "unlabeled", "all"]), "fmt": rng.choice(["list", "list", "tensor", "numpy"])}
+             "mode": rng.choice(["labeled", "unlabeled", "all"]), "fmt": rng.choice(["list", "list", "tensor", "numpy", "none"]),
+             "view": rng.random() < 0.3}
         if odd:
             z = rng.choice(["L0", "U0", "mode", "nounl", "nolab", "W0"])
             if z == "L0":
